@@ -406,6 +406,11 @@ class FuncTx:
             for i,(d,t,v) in enumerate(lst):
                 st.append('v_%s = phi_t%d;'%(cname(d),i))
             return '{ %s goto L_%s; }'%(' '.join(st),cname(succ))
+        s.defs={}
+        for lb in order:
+            for l in blocks[lb]:
+                mm=re.match(r'(%[-\w.$"]+) = (.*)$',l)
+                if mm: s.defs[mm.group(1)]=mm.group(2)
         for lb in order:
             code.append('L_%s: ;'%cname(lb))
             for l in blocks[lb]:
@@ -538,7 +543,14 @@ class FuncTx:
                     r=g.resolve(t_)
                     return 'p' if r.k=='ptr' else (r.k+str(getattr(r,'bits','')))
                 shape=(kind(rt_) if rt_.k!='void' else 'v',tuple(kind(a) for a in atys))
-                cands=[fn for fn,(fr,fp_,fva) in g.m.funcs.items() if fn in g.m.addr_taken and not fva and ((kind(fr) if fr.k!='void' else 'v'),tuple(kind(t_) for t_,_ in fp_))==shape]
+                shape_cands=[fn for fn,(fr,fp_,fva) in g.m.funcs.items() if fn in g.m.addr_taken and not fva and ((kind(fr) if fr.k!='void' else 'v'),tuple(kind(t_) for t_,_ in fp_))==shape]
+                STATS['indirect']+=1
+                cha=s.cha_candidates(callee, atys)
+                if cha is not None:
+                    cands=[fn for fn in cha if fn in g.m.funcs and not g.m.funcs[fn][2] and ((kind(g.m.funcs[fn][0]) if g.m.funcs[fn][0].k!='void' else 'v'),tuple(kind(t_) for t_,_ in g.m.funcs[fn][1]))==shape]
+                    STATS['cha']+=1
+                else:
+                    cands=shape_cands; STATS['shape']+=1
                 fpv=cn; out=[]
                 if rt_.k!='void' and dst is not None: s.decl(dst,rt_)
                 for fn in cands:
@@ -563,6 +575,32 @@ class FuncTx:
             if rt_.k=='void' or dst is None: return [call+';']
             return setv(rt_,call)
         raise SyntaxError('instr '+op+' :: '+l)
+    def cha_candidates(s, callee, atys):
+        """class-hierarchy analysis: callee is `load (gep vtable, K)` with vtable loaded through arg0's vptr."""
+        g=s.g
+        d=s.defs.get(callee)
+        if not d or not d.startswith('load '): return None
+        m=re.search(r'(%[-\w.$"]+)(?:, align \d+)?(?:, !.*)?$',d)
+        if not m: return None
+        src=m.group(1); slot=0
+        d2=s.defs.get(src)
+        if d2 and d2.startswith('getelementptr'):
+            m2=re.search(r'(%[-\w.$"]+), i64 (\d+)$',d2)
+            if not m2: return None
+            slot=int(m2.group(2)); src=m2.group(1); d2=s.defs.get(src)
+        if not d2 or not d2.startswith('load '): return None   # must be the vptr load
+        if not atys or atys[0].k!='ptr': return None
+        # NOTE: the IR type name of `this` is NOT reliable (llvm merges structurally identical classes, e.g. a
+        # SDAI_LOGICAL object is typed %class.SDAI_BOOLEAN*), so the candidate set is: the function in slot K of
+        # ANY vtable group of the module (a superset of the targets of every possible dynamic class); the caller
+        # filters by parameter shape.
+        out=[]
+        for dcls in sorted(g.m.vt_by_class):
+            for grp in g.m.vt_by_class[dcls]:
+                if 2+slot < len(grp):
+                    fn=grp[2+slot]
+                    if fn and fn not in out: out.append(fn)
+        return out
     def intrinsic(s,name,args,atys,dst,rt_):
         g=s.g
         if name.startswith('llvm.lifetime') or name.startswith('llvm.dbg') or name.startswith('llvm.experimental.noalias') or name.startswith('llvm.assume'):
@@ -631,6 +669,57 @@ def parse_sig(l, isdef):
             p.expect(',')
     return ret,name,params,va
 
+def demangle_simple(sym):
+    """_ZTV7InstMgr -> InstMgr ; _ZTVN3foo3BarE -> foo::Bar ; None if not understood"""
+    r=sym
+    if r.startswith('N'):
+        r=r[1:]; parts=[]
+        while r and r[0]!='E':
+            mm=re.match(r'(\d+)',r)
+            if not mm: return None
+            n=int(mm.group(1)); r=r[mm.end():]; parts.append(r[:n]); r=r[n:]
+        return '::'.join(parts)
+    mm=re.match(r'(\d+)',r)
+    if not mm: return None
+    n=int(mm.group(1)); r=r[mm.end():]
+    return r[:n] if len(r)==n else None
+
+def build_hierarchy(m):
+    """vtables (_ZTV*) -> list of groups of function names; typeinfo (_ZTI*) -> base classes -> derived closure."""
+    m.vt_by_class={}; bases={}
+    for gname,l in m.globals.items():
+        if gname.startswith('@_ZTV') and ' = ' in l and ('constant' in l or 'global' in l):
+            cls=demangle_simple(gname[5:])
+            if cls is None: continue
+            init=l.split(' = ',1)[1]
+            groups=[]
+            for gm in re.finditer(r'\[\d+ x i8\*\] \[(.*?)\](?=[,} ])',init):
+                ents=[]
+                for e in split_top(gm.group(1)):
+                    mm=re.search(r'@([-\w.$]+)',e)
+                    ents.append(mm.group(1) if mm and not mm.group(1).startswith('_ZTI') else None)
+                groups.append(ents)
+            m.vt_by_class[cls]=groups
+        if gname.startswith('@_ZTI') and ' = ' in l:
+            cls=demangle_simple(gname[5:])
+            if cls is None: continue
+            bs=[demangle_simple(x) for x in re.findall(r'@_ZTI([\w]+)',l.split(' = ',1)[1])]
+            bases[cls]=[b for b in bs if b and b!=cls]
+    m.derived={}
+    for c in set(list(bases)+list(m.vt_by_class)):
+        m.derived.setdefault(c,set()).add(c)
+    changed=True
+    allb={}
+    def anc(c,seen=()):
+        out=set()
+        for b in bases.get(c,[]):
+            if b in seen: continue
+            out.add(b); out|=anc(b,seen+(c,))
+        return out
+    for c in list(m.derived):
+        for a in anc(c):
+            m.derived.setdefault(a,set([a])).add(c)
+
 def main():
     text=open(sys.argv[1]).read(); m=parse_module(text); g=Gen(m)
     fout=[]; protos=[]; gl=[]
@@ -644,6 +733,14 @@ def main():
     for gl_ in m.globals.values():
         for nm_ in re.findall(r'@([-\w.$]+)',gl_.split(' = ',1)[1] if ' = ' in gl_ else ''):
             if nm_ in m.funcs: m.addr_taken.add(nm_)
+    for it in m.order:
+        if it[0]=='f':
+            for bl in it[2]:
+                if '@' not in bl: continue
+                t=re.sub(r'@[-\w.$]+\(','(',bl)      # direct callees are not address-taken uses
+                for nm_ in re.findall(r'@([-\w.$]+)',t):
+                    if nm_ in m.funcs: m.addr_taken.add(nm_)
+    build_hierarchy(m)
     for it in m.order:
         if it[0]=='f':
             ret,name,params,va=parse_sig(it[1],True)
@@ -670,7 +767,9 @@ def main():
     dummy=FuncTx(g,'@g',T('void'),[],[])
     for gname,l in m.globals.items():
         mm=re.match(r'^(@[^ ]+) = '+LINK+r'(?:dso_local |hidden |protected )?(?:unnamed_addr |local_unnamed_addr )?(?:thread_local |thread_local\(\w+\) )?(?:addrspace\(\d+\) )?(global|constant|alias) (.*)$',l)
-        if not mm: print('/* skipped global: %s */'%l[:80]); continue
+        if not mm:
+            if not gname.startswith('@llvm.'): sys.stderr.write('ir2c: skipped global: %s\n'%l[:100])
+            continue
         kind=mm.group(2); rest=mm.group(3)
         if kind=='alias':
             tgt=re.findall(r'@([-\w.$]+)',rest)[-1]; aliases.append('#define %s %s'%(cname(gname),cname('@'+tgt))); continue
@@ -686,8 +785,23 @@ def main():
         v=dummy.val(P(init),t)
         gdefs.append('%s %s = %s;'%(g.ct(t),cn,v))
     fwd,fps,structs=g.emit_types()
-    print('#include <string.h>\n#include <stdlib.h>\n#include <stdio.h>\n#include <ctype.h>\n#include <math.h>')
-    print('\n'.join(aliases)); print('\n'.join(fwd)); print('\n'.join(fps)); print('\n'.join(structs))
-    print('\n'.join(gdecl)); print('\n'.join(protos)); print('\n'.join(gdefs)); print('\n'.join(fout))
+    outf = open(sys.argv[2], 'w') if len(sys.argv) > 2 else sys.stdout
+    def pr(x): outf.write(x + '\n')
+    pr('#include <string.h>\n#include <stdlib.h>\n#include <stdio.h>\n#include <math.h>\n#include "ir2c_rt.h"')
+    pr('\n'.join(aliases)); pr('\n'.join(fwd)); pr('\n'.join(fps)); pr('\n'.join(structs))
+    pr('\n'.join(gdecl)); pr('\n'.join(protos)); pr('\n'.join(gdefs)); pr('\n'.join(fout))
+    # dynamic initialisers (llvm.global_ctors) in priority/appearance order
+    ctors=[]
+    gc=m.globals.get('@llvm.global_ctors')
+    if gc:
+        for mm in re.finditer(r'\{ i32 (\d+), void \(\)\* @([-\w.$]+), i8\* [^}]*\}',gc):
+            ctors.append((int(mm.group(1)),mm.group(2)))
+    pr('void __verif_global_ctors(void) {')
+    for pri,fn in sorted(ctors,key=lambda x:x[0]):
+        if fn in m.funcs: pr('  %s();'%cname('@'+fn))
+    pr('}')
+    if outf is not sys.stdout: outf.close()
+    sys.stderr.write('ir2c: %d functions, %d indirect call sites (%d by class hierarchy, %d by shape)\n' % (len(m.funcs), STATS['indirect'], STATS['cha'], STATS['shape']))
 
+STATS = {'indirect': 0, 'cha': 0, 'shape': 0}
 main()
